@@ -74,7 +74,7 @@ def level_order(col) -> list:
     return sorted({v for v in col["values"] if v is not None})
 
 
-def random_frame_spec(rng: random.Random, n: int, cats, nums, nulls: bool = False) -> dict:
+def random_frame_spec(rng: random.Random, n: int, cats, nums, nulls: bool = False, sorted_levels=None) -> dict:
     """cats: list of (name, nlevels, flavor); nums: list of (name, dtype).
 
     Every level occurs at least once when n >= nlevels (otherwise a "category" column keeps the
@@ -84,7 +84,11 @@ def random_frame_spec(rng: random.Random, n: int, cats, nums, nulls: bool = Fals
     for name, nlev, flavor in cats:
         pool = LEVEL_POOL[name][:nlev]
         levels = list(pool)
-        rng.shuffle(levels)  # category order is not the sorted order in general
+        coin = rng.random() < 0.5
+        if (coin if sorted_levels is None else not sorted_levels):
+            rng.shuffle(levels)  # category order is not the sorted order in general
+        else:
+            levels = sorted(levels[: max(1, min(nlev, n))])  # sorted and (for n >= nlev) all observed
         vals = [pool[i % nlev] for i in range(n)]
         rng.shuffle(vals)
         cols.append(cat_col(name, flavor, levels, vals))
@@ -225,3 +229,26 @@ def small_frame_specs(seed: int, thorough: bool, nulls: bool = False) -> list[di
     for n, cats, nums in grid:
         out.append(random_frame_spec(rng, n, cats, nums, nulls=nulls))
     return out
+
+
+def null_frame_specs(seed: int, thorough: bool) -> list[dict]:
+    """Frames with one null in the first categorical column and one in the first float column (different rows
+    when there are >= 2 rows); category columns once with sorted+observed levels, once shuffled."""
+    rng = random.Random(seed * 104729 + 3)
+    grid = [
+        (4, [("A", 3, "category")], [("a", "float"), ("b", "float")], True),
+        (4, [("A", 3, "category")], [("a", "float"), ("b", "float")], False),
+        (5, [("A", 2, "object"), ("B", 2, "category")], [("a", "float")], True),
+        (3, [], [("a", "float"), ("b", "float")], None),
+        (6, [("A", 3, "object")], [("b", "float"), ("c", "int")], None),
+        (2, [("A", 2, "object")], [("a", "float"), ("b", "float")], None),  # both rows carry a null
+        (6, [("A", 2, "str"), ("B", 3, "category")], [("a", "float"), ("b", "float")], True),
+    ]
+    if thorough:
+        grid += [
+            (6, [("A", 4, "category"), ("B", 2, "object"), ("D", 2, "category")], [("a", "float"), ("b", "float")], False),
+            (5, [("A", 3, "category"), ("B", 3, "category")], [("a", "float"), ("b", "float"), ("c", "int")], True),
+            (3, [("A", 2, "category")], [("a", "float")], True),
+            (6, [("A", 4, "object"), ("B", 2, "object")], [("a", "float"), ("b", "float")], None),
+        ]
+    return [random_frame_spec(rng, n, cats, nums, nulls=True, sorted_levels=sl) for n, cats, nums, sl in grid]
